@@ -429,7 +429,7 @@ func wfRangeReq(o *ObjectRangeRequest) bool {
 //@ requires [C14]    ucompl: uCompl(u)
 //@ requires [C14]    usep:   uSep(u)
 //@ requires [C14]    ids:    idsBelow(u)
-//@ uses hidden: req.ids req.uwf req.umember req.udistinct req.ucompl req.usep call.remove.wf call.remove.member call.remove.distinct call.remove.compl hint.frame hint.umemberA hint.umemberB hint.ucomplA hint.ucomplB
+//@ uses hidden: req.ids req.uwf req.umember req.udistinct req.ucompl req.usep call.remove.wf call.remove.member call.remove.distinct call.remove.compl hint.frame hint.umemberA hint.umemberB hint.ucomplA hint.ucomplB hint.udistinctA hint.udistinctB
 //@ assume            mem:    all(t, 0, len(input.Parts) + 1, 0 <= psum(t) && psum(t) <= 281474976710655) because the listed parts are resident in memory (each part body is a live []byte)
 //@ loop 1 invariant  idx:    -1 <= rangeindex__1 && rangeindex__1 < len(input.Parts)
 //@ loop 1 invariant  ok:     all(k, 0, rangeindex__1 + 1, listedOK(mpu.parts, input, k))
@@ -450,6 +450,8 @@ func wfRangeReq(o *ObjectRangeRequest) bool {
 //@                             samemap(u.buckets[b].uploads)))
 //@ rethint           umemberA: imp(has(u.buckets, bucket), idxMember(u.buckets[bucket]))
 //@ rethint           umemberB: allstr(b, imp(has(u.buckets, b) && b != bucket, idxMember(u.buckets[b])))
+//@ rethint           udistinctA: imp(has(u.buckets, bucket), idxDistinct(u.buckets[bucket]))
+//@ rethint           udistinctB: allstr(b, imp(has(u.buckets, b) && b != bucket, idxDistinct(u.buckets[b])))
 //@ rethint           ucomplA: imp(has(u.buckets, bucket), idxComplete(u.buckets[bucket]))
 //@ rethint           ucomplB: allstr(b, imp(has(u.buckets, b) && b != bucket, idxComplete(u.buckets[b])))
 //@ ensures [C14]     uwf:    uWf(u)
@@ -467,7 +469,9 @@ func wfRangeReq(o *ObjectRangeRequest) bool {
 //@ uses umemberA: req.inv req.umember -hints -calls call.remove.member call.getUnlocked.found
 //@ uses umemberB: req.inv req.umember -hints hint.frame -calls call.getUnlocked.found
 //@ uses umember: req.inv -hints hint.umemberA hint.umemberB -calls call.getUnlocked.found
-//@ uses udistinct: req.inv req.free req.uwf req.udistinct req.usep -hints -calls call.remove.distinct call.getUnlocked.found
+//@ uses udistinctA: req.inv req.udistinct -hints -calls call.remove.distinct call.getUnlocked.found
+//@ uses udistinctB: req.inv req.udistinct -hints hint.frame -calls call.getUnlocked.found
+//@ uses udistinct: req.inv -hints hint.udistinctA hint.udistinctB -calls call.getUnlocked.found
 //@ uses ucomplA: req.inv req.ucompl -hints -calls call.remove.compl call.getUnlocked.found
 //@ uses ucomplB: req.inv req.ucompl -hints hint.frame -calls call.getUnlocked.found
 //@ uses ucompl: req.inv -hints hint.ucomplA hint.ucomplB -calls call.getUnlocked.found
@@ -1250,6 +1254,12 @@ func wfRangeReq(o *ObjectRangeRequest) bool {
 //@ ensures [C03]      out:    imp(ok && match != nil, match.Key == key && match.CommonPrefix == mCommon(p, key) && match.MatchedPart == mPart(p, key))
 //@ ensures [C03]      part:   imp(ok && mCommon(p, key), mPart(p, key) != "")
 //@ modifies *match
+
+//@ func (Prefix).FilePrefix
+//@ props C03 C09
+//@ ensures [C03]      nodir:  imp(!p.HasPrefix || !p.HasDelimiter || p.Delimiter != "/", path == "" && remaining == "" && ok == (p.Delimiter == "/"))
+//@ ensures [C03]      dir:    imp(p.HasPrefix && p.HasDelimiter && p.Delimiter == "/", ok)
+//@ modifies nothing
 
 //@ func NewObjectList
 //@ props C03 C09
